@@ -308,12 +308,18 @@ class Listener:
                     return
 
                 new_neighbor = copy.copy(ranged_neighbor[0])
+                # copy.copy() is shallow: the Session, the RIB, the queues and the uid were those of the range itself and
+                # of every other peer accepted from it. The addresses written below rewrote the range (and the events of
+                # the peers already connected), the peers shared one Adj-RIB-In -- the withdraw of one removed the route
+                # of another -- and one Adj-RIB-Out: the second peer was sent an End-of-RIB on an empty table
+                new_neighbor.session = copy.copy(new_neighbor.session)
                 new_neighbor.range_size = 1
                 new_neighbor.ephemeral = True
                 new_neighbor.session.local_address = IP.from_string(connection.peer)
                 new_neighbor.session.peer_address = IP.from_string(connection.local)
                 if not new_neighbor.session.router_id:
                     new_neighbor.session.router_id = RouterID(connection.local)
+                new_neighbor.own_state()
 
                 new_peer = Peer(new_neighbor, reactor)
                 denied = new_peer.handle_connection(connection)
